@@ -55,11 +55,16 @@ pub struct Scenario {
     pub foreign_pool: Option<usize>,
     /// async script (mode Async only): D dispatch, R running, W wait, X wait_without_tl, O world, M world_mut, S setup
     pub script: Option<String>,
+    /// the injected run-panics fire at the END of `run`, after the system has written through its guards
+    pub panic_late: bool,
+    /// where the user-supplied pool is handed to the builder: 0 = before the registrations, 1 = after them,
+    /// 2 = before them but after a one-thread decoy pool (the later `add_pool` replaces the earlier one)
+    pub pool_placement: u8,
 }
 
 impl Scenario {
     pub fn plain(ops: Vec<Op>, mode: Mode, dispatches: u8) -> Scenario {
-        Scenario { ops, mode, dispatches, user_pool: None, default_threads: None, panics: vec![], rendezvous: None, foreign_pool: None, script: None }
+        Scenario { ops, mode, dispatches, user_pool: None, default_threads: None, panics: vec![], rendezvous: None, foreign_pool: None, script: None, panic_late: false, pool_placement: 0 }
     }
 
     pub fn to_json(&self) -> Value {
@@ -74,6 +79,8 @@ impl Scenario {
             "rendezvous": self.rendezvous.as_ref().map(|(ids, k)| json!({"ids": ids, "k": k})),
             "script": self.script,
             "foreign_pool": self.foreign_pool,
+            "panic_late": self.panic_late,
+            "pool_placement": self.pool_placement,
         })
     }
 
@@ -98,6 +105,8 @@ impl Scenario {
             }),
             script: v.get("script").and_then(|x| x.as_str()).map(|x| x.to_string()),
             foreign_pool: v.get("foreign_pool").and_then(|x| x.as_u64()).map(|x| x as usize),
+            panic_late: v.get("panic_late").and_then(|x| x.as_bool()).unwrap_or(false),
+            pool_placement: v.get("pool_placement").and_then(|x| x.as_u64()).unwrap_or(0) as u8,
         })
     }
 }
@@ -149,7 +158,13 @@ pub fn run_scenario(sc: &Scenario, twin: bool) -> ExecOut {
         for (id, at_fetch) in &sc.panics {
             // async scripts do not number their dispatches: the system panics whenever it runs
             let d = if sc.script.is_some() { u16::MAX } else { 1 };
-            b[*id] = if *at_fetch { Beh::PanicFetch(d) } else { Beh::PanicRun(d) };
+            b[*id] = if *at_fetch {
+                Beh::PanicFetch(d)
+            } else if sc.panic_late {
+                Beh::PanicLate(d)
+            } else {
+                Beh::PanicRun(d)
+            };
         }
         if !twin {
             if let Some((ids, k)) = &sc.rendezvous {
@@ -164,7 +179,7 @@ pub fn run_scenario(sc: &Scenario, twin: bool) -> ExecOut {
     }
     rayon::verif::set_default_threads(sc.default_threads);
     let pool = sc.user_pool.map(|n| Arc::new(rayon::ThreadPoolBuilder::new().num_threads(n).build().unwrap()));
-    let reg = register(&sc.ops, &ctx, pool, false);
+    let reg = register_placed(&sc.ops, &ctx, pool, sc.pool_placement);
     if let Some(c) = reg.calls.iter().find(|c| c.panic.is_some()) {
         out.build_error = Some(format!("builder call {:?} panicked: {}", c.path, c.panic.clone().unwrap()));
         return out;
@@ -216,8 +231,8 @@ pub fn run_scenario(sc: &Scenario, twin: bool) -> ExecOut {
             }
         }
         let w: &shred::World = ad.world();
-        out.values = world_values(w);
         out.borrow = world_borrow_state(w);
+        out.values = if out.borrow.iter().all(|b| *b == 0) { world_values(w) } else { vec![] };
     } else if sc.mode == Mode::Async && !twin {
         let world = new_world();
         let mut ad = reg.builder.build_async(world);
@@ -233,8 +248,8 @@ pub fn run_scenario(sc: &Scenario, twin: bool) -> ExecOut {
             out.results.push(r.err().map(|p| payload_str(&*p)));
         }
         let w: &shred::World = ad.world();
-        out.values = world_values(w);
         out.borrow = world_borrow_state(w);
+        out.values = if out.borrow.iter().all(|b| *b == 0) { world_values(w) } else { vec![] };
     } else {
         let mut d = match build(reg.builder) {
             Ok(d) => d,
@@ -267,8 +282,8 @@ pub fn run_scenario(sc: &Scenario, twin: bool) -> ExecOut {
                 let vals = if bs.iter().all(|b| *b == 0) { world_values(&world) } else { vec![] };
                 out.after.push((vals, bs, ctx.local.lock().unwrap().clone()));
             }
-            out.values = world_values(&world);
             out.borrow = world_borrow_state(&world);
+            out.values = if out.borrow.iter().all(|b| *b == 0) { world_values(&world) } else { vec![] };
             out.log = ctx.take_log();
             out.obs = ctx.obs.lock().unwrap().clone();
             out.local = ctx.local.lock().unwrap().clone();
@@ -298,8 +313,8 @@ pub fn run_scenario(sc: &Scenario, twin: bool) -> ExecOut {
             let vals = if bs.iter().all(|b| *b == 0) { world_values(&world) } else { vec![] };
             out.after.push((vals, bs, ctx.local.lock().unwrap().clone()));
         }
-        out.values = world_values(&world);
         out.borrow = world_borrow_state(&world);
+        out.values = if out.borrow.iter().all(|b| *b == 0) { world_values(&world) } else { vec![] };
     }
     out.log = ctx.take_log();
     out.obs = ctx.obs.lock().unwrap().clone();
@@ -601,6 +616,43 @@ pub fn analyze(m: &Mon, sc: &Scenario, info: &PlanInfo, out: &ExecOut, twin: Opt
         }
     }
 
+    if m.c12 && sc.mode == Mode::Dispatch && sc.script.is_none() {
+        // a dispatch that returns normally has run every top-level thread-local system exactly once,
+        // also when an earlier dispatch of the same dispatcher ended in a (caught) panic
+        for (di, r) in out.results.iter().enumerate() {
+            if r.is_some() {
+                continue;
+            }
+            let d = di as u16 + 1;
+            for n in info.nodes.iter().filter(|n| n.kind == Kind::Tl && n.parent.is_none()) {
+                let ran = log.iter().filter(|e| e.dispatch == d && e.kind == Ev::FetchBegin && e.sys as usize == n.id).count();
+                if ran != 1 {
+                    vs.push(v("C12", "tl-not-run-once-by-dispatch", format!("dispatch {} returned normally but thread-local system {} ran {} times in it", d, n.id, ran)));
+                }
+            }
+        }
+    }
+
+    if m.c04 && expecting_panic && sc.script.is_none() && sc.mode != Mode::Async {
+        // exactly once per dispatch also holds for every dispatch that returns normally AFTER a dispatch
+        // that ended in a (caught) panic
+        for (di, r) in out.results.iter().enumerate().skip(1) {
+            if r.is_some() {
+                continue;
+            }
+            let d = di as u16 + 1;
+            let tl = if sc.mode == Mode::Dispatch { 1 } else { 0 };
+            for n in &info.nodes {
+                let exp = expected_runs(info, n.id, 1, tl) as usize;
+                let ran = log.iter().filter(|e| e.dispatch == d && is_begin(info, e) && e.sys as usize == n.id).count();
+                if ran != exp {
+                    let sig = if ran < exp { "system-skipped-after-contained-panic" } else { "system-ran-too-often-after-contained-panic" };
+                    vs.push(v("C04", sig, format!("dispatch {} (after a dispatch that ended in a caught panic) ran system {} {} times, expected {}", d, n.id, ran, exp)));
+                }
+            }
+        }
+    }
+
     if m.c04 && !expecting_panic && out.results.iter().all(|r| r.is_none()) {
         let k = sc.dispatches as u32;
         let tl = if matches!(sc.mode, Mode::Dispatch | Mode::Async) { k } else { 0 };
@@ -781,6 +833,11 @@ pub fn analyze_async(sc: &Scenario, info: &PlanInfo, out: &ExecOut) -> Vec<Viol>
     let mut in_wait = false;
     let mut open_at_call = 0usize;
     let mut unfinished_at_call = false;
+    // thread-local systems belong to a dispatch and run inside wait(): the first wait() that returns after
+    // one or more dispatches has to run every top-level thread-local system exactly once
+    let tl_nodes: Vec<usize> = info.nodes.iter().filter(|x| x.kind == Kind::Tl && x.parent.is_none()).map(|x| x.id).collect();
+    let mut dispatched_since_wait = false;
+    let mut tl_begun_at_wait: Vec<u32> = vec![0; n];
     let stage_nodes: Vec<usize> = info.nodes.iter().filter(|x| !(x.kind == Kind::Tl && x.parent.is_none())).map(|x| x.id).collect();
     let all_done = |begun: &Vec<u32>, ended: &Vec<u32>, issued: u32| -> Option<usize> {
         for id in &stage_nodes {
@@ -807,13 +864,26 @@ pub fn analyze_async(sc: &Scenario, info: &PlanInfo, out: &ExecOut) -> Vec<Viol>
                     unfinished_at_call = all_done(&begun, &ended, issued).is_some();
                     if op == 'W' {
                         in_wait = true;
+                        tl_begun_at_wait = begun.clone();
                     }
                 } else {
                     in_wait = false;
                     if op == 'D' && e.aux != 9 {
                         issued += 1;
+                        dispatched_since_wait = true;
                     }
                     let returned_ok = e.aux != 9;
+                    if op == 'W' && returned_ok {
+                        if dispatched_since_wait && sc.panics.is_empty() {
+                            for t in &tl_nodes {
+                                let ran = begun[*t] - tl_begun_at_wait[*t];
+                                if ran != 1 {
+                                    vs.push(v("C12", "wait-did-not-run-thread-local-once", format!("wait() (call {}) returned after a dispatch but thread-local system {} ran {} times inside it", id, t, ran)));
+                                }
+                            }
+                        }
+                        dispatched_since_wait = false;
+                    }
                     match op {
                         'W' | 'X' | 'O' | 'M' | 'S' if returned_ok => {
                             if !open.is_empty() {
